@@ -477,7 +477,10 @@ func toVirtual(t time.Time) int64 {
 	if t.IsZero() {
 		return -1
 	}
-	return int64(t.Sub(time.Unix(epochUnix, 0)))
+	if v := int64(t.Sub(time.Unix(epochUnix, 0))); v > 0 {
+		return v
+	}
+	return 0 // a deadline at or before the start of the execution has passed already (-1 is "none")
 }
 
 // Sleep replaces time.Sleep: blocks until the virtual clock reaches now+d.
